@@ -146,6 +146,7 @@ func cmdSinkFaults(f hx.Flags, r *hx.Result) {
 	defer asyncRotationFailure(r, tmp)
 	defer creationFailureKinds(r, tmp)
 	defer siblingAfterOutage(r, tmp)
+	defer quietSiblingAndOutage(r, tmp)
 	defer consoleErrorKinds(r)
 	n := 0
 	sigs := map[string]bool{}
@@ -418,6 +419,69 @@ func siblingAfterOutage(r *hx.Result, tmp string) {
 	if files["app.log.wf."+ts(t2)] != "B2\n" || files["app.log.wf."+ts(t3)] != "B3\n" || files["app.log."+ts(t3)] != "A4\n" || !strings.HasPrefix(files["app.log."+ts(t1)], "A1\nA2\n") {
 		r.Violate("sink-delivery:sibling", desc, "want app.log.wf.%s = B2 (the sibling's own first attempt in that interval, the directory is back), app.log.wf.%s = B3, app.log.%s = A4, app.log.%s starting with A1 A2; files: %q",
 			ts(t2), ts(t3), ts(t3), ts(t1), files)
+	}
+}
+
+// quietSiblingAndOutage: the warn stream of a <name> / <name>.wf pair has been quiet for longer than the retention; the
+// normal stream rotates (its retention scan runs), then the directory goes away for a boundary of the warn stream and
+// comes back.  Everything either stream accepted is in the directory afterwards.
+func quietSiblingAndOutage(r *hx.Result, tmp string) {
+	dir := filepath.Join(tmp, "quiet")
+	away := dir + ".away"
+	_ = os.MkdirAll(dir, 0o755)
+	defer os.RemoveAll(dir)
+	defer os.RemoveAll(away)
+	var mu sync.Mutex
+	now := time.Now().Truncate(time.Hour)
+	log.VerifNow = func(time.Time) time.Time { mu.Lock(); defer mu.Unlock(); return now }
+	defer func() { log.VerifNow = nil }()
+	tick := func() { mu.Lock(); now = now.Add(time.Hour); mu.Unlock() }
+	mk := func(name string) *log.RollingFileAppender {
+		return &log.RollingFileAppender{Layout: &log.TextLayout{BaseLayout: log.BaseLayout{FileLineLength: 48}}, FileDir: dir, FileName: name,
+			Rotation: log.TimeRotation{Interval: time.Hour}, MaxAge: 1}
+	}
+	a, b := mk("app.log"), mk("app.log.wf")
+	if a.Start() != nil || b.Start() != nil {
+		r.SetInfra("quietSiblingAndOutage: start failed")
+		return
+	}
+	desc := map[string]any{"history": "A1, B1, the warn file untouched for 10 h, boundary, A2 (rotates, its retention scan runs), directory away, B2, directory back, boundary, B3, A3, Stop", "maxAge": 1}
+	ok, p := hx.Within(10*time.Second, func() {
+		a.Write([]byte("A1\n"))
+		b.Write([]byte("B1\n"))
+		cur, _, _ := log.VerifRollingState(b)
+		old := time.Now().Add(-10 * time.Hour)
+		_ = os.Chtimes(cur, old, old)
+		tick()
+		a.Write([]byte("A2\n"))
+		time.Sleep(150 * time.Millisecond) // the scan launched by that rotation
+		_ = os.Rename(dir, away)
+		b.Write([]byte("B2\n"))
+		_ = os.Rename(away, dir)
+		tick()
+		b.Write([]byte("B3\n"))
+		a.Write([]byte("A3\n"))
+		a.Stop()
+		b.Stop()
+	})
+	r.Eval(6)
+	if !ok || p != nil {
+		r.Violate("blocked:creation-failure", desc, "the history returned=%v panic=%v", ok, p)
+		return
+	}
+	all := ""
+	files := map[string]string{}
+	ents, _ := os.ReadDir(dir)
+	for _, e := range ents {
+		bts, _ := os.ReadFile(filepath.Join(dir, e.Name()))
+		files[e.Name()] = string(bts)
+		all += string(bts)
+	}
+	for _, w := range []string{"A1", "A2", "A3", "B1", "B2", "B3"} {
+		if strings.Count(all, w+"\n") != 1 {
+			r.Violate("sink-delivery:quiet-sibling", desc, "write %s is in the directory %d times; files: %q", w, strings.Count(all, w+"\n"), files)
+			return
+		}
 	}
 }
 
